@@ -25,3 +25,21 @@ Check C13_rx_loop_ends :
     live' = 0%nat /\ queued' = 0%nat /\ chan_step (live', queued') EvRecv = None /\ chan_step (live', queued') EvSend = None.
 Check (eq_refl : same_selection = fun c1 c2 =>
   repl c1 = repl c2 /\ roots c1 = roots c2 /\ by_id c1 = by_id c2 /\ min_size c1 = min_size c2 /\ max_size c1 = max_size c2).
+
+From FV Require StdinModel StdinProofs.
+Check C13_stdin_paths_read_back :
+  forall ps : list (list N),
+    (forall p, In p ps -> StdinProofs.no_nl p /\ last p 0%N <> 13%N) ->
+    StdinModel.stdin_paths (concat (map (fun p => p ++ [10%N]) ps)) = ps.
+Check C13_stdin_paths_crlf :
+  forall ps : list (list N),
+    (forall p, In p ps -> StdinProofs.no_nl p) ->
+    StdinModel.stdin_paths (concat (map (fun p => p ++ [13%N; 10%N]) ps)) = ps.
+Check C13_stdin_last_line_unterminated :
+  forall (ps : list (list N)) (p : list N),
+    (forall q, In q ps -> StdinProofs.no_nl q /\ last q 0%N <> 13%N) ->
+    StdinProofs.no_nl p -> p <> [] -> last p 0%N <> 13%N ->
+    StdinModel.stdin_paths (concat (map (fun q => q ++ [10%N]) ps) ++ p) = ps ++ [p].
+Check (eq_refl : StdinModel.stdin_paths = fun input => map StdinModel.strip_cr (StdinModel.split_nl None input)).
+Check (eq_refl : StdinProofs.no_nl = fun p => ~ In 10%N p).
+
